@@ -325,6 +325,14 @@ public:
       return; // Already closed
     }
 
+    // A caller that has just evaluated its wait predicate (queue full / empty, not yet
+    // closed) still holds _mutex until it is inside wait(). Passing through the mutex
+    // here puts the notifications below after that point; without it they can fall in
+    // between and the caller sleeps forever on a closed queue.
+    {
+      std::lock_guard<std::mutex> lock(_mutex);
+    }
+
     // Wake all waiting threads
     _condNotEmpty.notify_all();
     _condNotFull.notify_all();
